@@ -12,7 +12,7 @@ Decides the structure (which fields are multiplied, once), not float rounding.""
 import re
 
 from ..common import lib_reachable, short, where
-from ..exprs import (call_named, closure_of, factors, is_const, is_param, mentions, mentions_param, strip, uncast)
+from ..exprs import (inline_top, ELEM, loop_built_vec, call_named, closure_of, factors, is_const, is_param, mentions, mentions_param, strip, uncast)
 from ..mirlib import Expr, Program, expr_str, op_place
 
 LENGTH_SCALAR = {"f32", "f64"}
@@ -29,7 +29,7 @@ def scale_methods(prog):
     return out
 
 
-def is_scaled_field(prog, sm, fty, e, self_field, scale_is, depth=0):
+def is_scaled_field(prog, sm, fty, e, self_field, scale_is, depth=0, path=None):
     """is e == (self_field value) x scale, exactly once?  scale_is(e) recognises the scale value,
     self_field(e) recognises the unscaled field."""
     e = strip(e)
@@ -73,6 +73,11 @@ def is_scaled_field(prog, sm, fty, e, self_field, scale_is, depth=0):
                                                     lambda x: _captured_scale(x, caps, scale_is), depth + 1)
                             okall = okall and ok
                         return okall, "Vec field must be `self.f.iter().map(|p| p.scale(scale)).collect()`"
+        if path is not None:
+            lb = loop_built_vec(prog, path, e)
+            if lb and self_field(lb[0]):
+                ok, _ = is_scaled_field(prog, sm, inner, lb[1], lambda x: strip(x) == ELEM, scale_is, depth + 1)
+                return ok, "Vec field must be `self.f.iter().map(|p| p.scale(scale)).collect()`"
         return False, "Vec field must be `self.f.iter().map(|p| p.scale(scale)).collect()`"
     return None, "not a length type"
 
@@ -138,6 +143,9 @@ def run(run):
         for r in rets:
             r = strip(r)
             if r[0] != "agg" or r[1] != ty:
+                # built by a constructor helper of the type (`self.with_line(self.line.scale(scale))`)
+                r = inline_top(prog, r, keep=r"::scale$")
+            if r[0] != "agg" or r[1] != ty:
                 run.bad("C11.K1", "scale-shape/%s" % short(ty), where(b),
                         "%s does not return a `%s {..}` aggregate (got %s); field-wise scaling cannot be established" % (short(p), short(ty), expr_str(r)[:120]))
                 continue
@@ -152,7 +160,7 @@ def run(run):
                     continue
                 self_field = lambda x, name=name: is_param(x, 1, (name,))
                 if is_length_type(prog, sm, fty):
-                    ok, why = is_scaled_field(prog, sm, fty, e, self_field, scale_param)
+                    ok, why = is_scaled_field(prog, sm, fty, e, self_field, scale_param, path=p)
                     if ok:
                         run.ok("C11.K1", inst, where(b), "= " + expr_str(e))
                     else:
